@@ -66,6 +66,8 @@ class Ref:
         if not parent:
             if self.root():
                 return StatechartError
+            if kind in ('HS', 'HD'):
+                return StatechartError      # a history state cannot be the root (was defect F4)
         else:
             if parent not in self.st:
                 return StatechartError
@@ -161,6 +163,8 @@ def obs_impl(sc):
     roots = [n for n in names if sc.parent_for(n) is None]
     if names and (len(roots) != 1 or sc.root != roots[0]):
         problems.append('roots: %s, root property: %s' % (roots, sc.root))
+    if not names and sc.root is not None:
+        problems.append('no state at all, but the root property says %s' % sc.root)
     for n in names:
         o = sc.state_for(n)
         if o.name != n:
@@ -323,8 +327,6 @@ def ops_for(ref):
     for kind in ('B', 'C', 'HS'):
         for name in ('new', first, 'a', 'p'):       # 'a' / 'p': names that may have been removed before
             for parent in names + ['zz', None]:
-                if kind == 'HS' and parent is None and not ref.root():
-                    continue     # history state as root: C12's question, not in this alphabet
                 ops.append(('add_state', kind, name, parent))
     for n in names + ['zz']:
         ops.append(('remove_state', n))
@@ -367,7 +369,7 @@ def expand(task):
                                       'kind': kind, 'detail': msg})
     for op in ops_for(ref0):
         sc, ref = build(chart, hist)
-        before, _ = obs_impl(sc)
+        before, pb_before = obs_impl(sc)
         r2 = ref.clone()
         exp = apply_ref(r2, op)
         got = None
@@ -397,6 +399,11 @@ def expand(task):
             ok = False
             viol(op, 'atomicity', '%s raised %s but changed the statechart: %s -> %s'
                  % (op[0], got.__name__, _diff(before, after), _diff(after, before)))
+        if got is not None:
+            for pb in problems:
+                if pb not in pb_before:
+                    ok = False
+                    viol(op, 'atomicity', '%s raised %s but left the statechart unsound: %s' % (op[0], got.__name__, pb))
         if got is None:
             for pb in problems:
                 ok = False
